@@ -217,3 +217,49 @@ Section TypeNodes.
     intros E1 Hp. eapply (type_node_plain sw L ns canon _ root evs st Hrun); eauto using memo_domb.
   Qed.
 End TypeNodes.
+
+(* ------------------------------------------------------------------------ *)
+(* several transformations in one graph: the membership sets of each root are
+   exactly the unions over the concepts added under that root, whatever the
+   other transformations in the graph already contain *)
+Section CanonRoots.
+  Variable sw : switches.
+  Variable L : lang.
+  Variable ns : list nat.
+  Variable H : hier.
+  Variable canon : list ty.
+  Hypothesis W : wf_hier H.
+  Hypothesis canon_wf : Forall (wf_ty H) canon.
+  Variable res : list (term * ev).
+  Variable st : tstate.
+  Hypothesis Hrun : runr sw L ns canon (csup H canon) res (tinit sw L ns canon) = Some st.
+
+  Lemma canon_node_r s n : In s canon -> tfind s (t_memo st) = Some n ->
+    exists u, uri L ns canon s = Some u /\ n = TUri u.
+  Proof.
+    intros Hs E. pose proof (runr_memo_shape sw L ns canon _ res st Hrun s n E) as S.
+    destruct (uri L ns canon s) as [u|] eqn:Eu; [eauto|]. exfalso. eapply uri_canon; eauto.
+  Qed.
+
+  Theorem containsType_per_root r o : In (r, PContainsType, o) (t_tr st) <->
+    exists e, In (r, e) res /\ typed sw canon e = true /\
+      ((w_membership sw = true /\ tfind (ev_ty e) (t_memo st) = Some o) \/
+       (w_membership_super sw = true /\ In (ev_ty e) canon /\
+        exists s u, In s canon /\ Sub H (ev_ty e) s /\ s <> ev_ty e /\
+                    uri L ns canon s = Some u /\ o = TUri u)).
+  Proof.
+    rewrite (runr_membership_types sw L ns canon _ res st Hrun). split.
+    - intros (e & He & T & [A|(Wm & C & s & Hs & E)]); exists e; (split; [exact He|]);
+        (split; [exact T|]); [now left|right].
+      apply canon_mem_In in C. apply (csup_spec H canon W canon_wf) in Hs as (Hs & Sb & Ne); [|exact C].
+      destruct (canon_node_r _ _ Hs E) as (u & Eu & ->).
+      split; [exact Wm|]. split; [exact C|]. exists s, u. auto.
+    - intros (e & He & T & [A|(Wm & C & s & u & Hs & Sb & Ne & Eu & ->)]); exists e;
+        (split; [exact He|]); (split; [exact T|]); [now left|right].
+      split; [exact Wm|]. split; [now apply canon_mem_In|].
+      assert (Hin : In s (csup H canon (ev_ty e))) by (apply (csup_spec H canon W canon_wf); auto).
+      destruct (runr_covered sw L ns canon _ res st Hrun r e He T) as [_ Cs].
+      destruct (Cs (proj2 (canon_mem_In _ _) C) s Hin) as (n' & En').
+      exists s. split; [exact Hin|]. destruct (canon_node_r _ _ Hs En') as (u' & Eu' & ->). congruence.
+  Qed.
+End CanonRoots.
